@@ -27,7 +27,7 @@ these bytes reports exactly this message (time stamp modulo 2^32) and nothing is
 theorem C17_roundtrip (c : Cfg) (buf0 : List Nat) (hb : buf0.length = maxBuf) (m : Msg) (hv : Valid m) :
     ∃ bytes s', sendInActisense m = .ok bytes ∧
       feed c (RState.init buf0) bytes = .ok (s', [received m]) ∧ handling s' = false := by
-  obtain ⟨s', hf, hidle⟩ := frame_fed c (Reachable.init buf0 hb).inv rfl hv
+  obtain ⟨s', hf, hidle⟩ := frame_fed c (Reachable.init buf0 hb).inv (Or.inr rfl) hv
   exact ⟨_, s', encode_valid hv, hf, hidle.handling⟩
 
 example : Valid ⟨6, 129025, 255, 1, 123456, 8, [0x10, 0x10, 3, 4, 5, 6, 7, 0x10]⟩ := by
@@ -36,7 +36,7 @@ example : Valid ⟨6, 129025, 255, 1, 123456, 8, [0x10, 0x10, 3, 4, 5, 6, 7, 0x1
 /-- **C17_roundtrip_concat.** One message per frame: the concatenated frames of any list of valid
 messages, fed to a reachable reader without a pending escape (in particular a fresh one), yield
 exactly these messages in order; the same through `ParseMessages`. -/
-theorem C17_roundtrip_concat (c : Cfg) (s : RState) (hs : Reachable s) (he : s.esc = false)
+theorem C17_roundtrip_concat (c : Cfg) (s : RState) (hs : Reachable s) (he : s.coming = false ∨ s.esc = false)
     (ms : List Msg) (hv : ∀ m ∈ ms, Valid m) :
     (∀ m ∈ ms, sendInActisense m = .ok (frame (bodyOf m))) ∧
     ∃ s', feed c s (ms.flatMap fun m => frame (bodyOf m)) = .ok (s', ms.map received) ∧
@@ -44,7 +44,7 @@ theorem C17_roundtrip_concat (c : Cfg) (s : RState) (hs : Reachable s) (he : s.e
         (ms.flatMap fun m => frame (bodyOf m)) = .ok (s', [], ms.map received) ∧
       (ms ≠ [] → handling s' = false) := by
   refine ⟨fun m hm => encode_valid (hv m hm), ?_⟩
-  have key : ∀ (ms : List Msg) (s : RState), RInv s → s.esc = false → (∀ m ∈ ms, Valid m) →
+  have key : ∀ (ms : List Msg) (s : RState), RInv s → (s.coming = false ∨ s.esc = false) → (∀ m ∈ ms, Valid m) →
       ∃ s', feed c s (ms.flatMap fun m => frame (bodyOf m)) = .ok (s', ms.map received) ∧
         (ms ≠ [] → handling s' = false) := by
     intro ms
@@ -53,7 +53,7 @@ theorem C17_roundtrip_concat (c : Cfg) (s : RState) (hs : Reachable s) (he : s.e
     | cons m t ih =>
       intro s hi he hv
       obtain ⟨s1, hf1, hidle⟩ := frame_fed c hi he (hv m (by simp))
-      obtain ⟨s2, hf2, hh⟩ := ih s1 hidle.inv hidle.esc (fun x hx => hv x (by simp [hx]))
+      obtain ⟨s2, hf2, hh⟩ := ih s1 hidle.inv (Or.inr hidle.esc) (fun x hx => hv x (by simp [hx]))
       refine ⟨s2, ?_, ?_⟩
       · simp only [List.flatMap_cons, feed_append, hf1, hf2, List.map_cons]; rfl
       · intro _
@@ -154,6 +154,37 @@ theorem C17_reported_frame_consistent (ds now : Nat) (body : List Nat) (m : Msg)
     simp only [List.length_take, List.length_drop]
     omega
 
+/-- **C17_reported_length_bounded.** Every message the reader ever reports — from any reachable state,
+for any byte stream, both frame types (0x93 with 11, 0x94 with 6 header bytes) — has `DataLen ≤ 223 =
+MaxDataLen` and exactly `DataLen` payload bytes: the copy-out loop never leaves `Data[223]`, not even
+inside the message object, and a self-consistent frame with more payload is dropped. -/
+theorem C17_reported_length_bounded (c : Cfg) (bytes : List Nat) : ∀ (s : RState), Reachable s →
+    ∀ (s' : RState) (ms : List Msg), feed c s bytes = .ok (s', ms) →
+    ∀ m ∈ ms, m.len ≤ 223 ∧ m.data.length = m.len := by
+  induction bytes with
+  | nil =>
+    intro s _ s' ms h m hm
+    simp only [feed, Except.ok.injEq, Prod.mk.injEq] at h
+    rw [← h.2] at hm; cases hm
+  | cons b t ih =>
+    intro s hs s' ms h m hm
+    obtain ⟨s1, k, r, hstep, hr1, hrep⟩ := C17_reader_safe s hs c true b
+    obtain ⟨⟨s2, ms2, hf2, _⟩, _, _⟩ := C17_reader_safe_stream s1 hr1 c t
+    simp only [feed, hstep, hf2, Except.ok.injEq, Prod.mk.injEq] at h
+    rw [← h.2] at hm
+    rcases List.mem_append.mp hm with hm | hm
+    · cases r with
+      | none => cases hm
+      | some m0 =>
+        have : m = m0 := by simpa using hm
+        subst this
+        obtain ⟨_, _, _, hdec⟩ := hrep m rfl
+        have := C17_reported_frame_consistent _ _ _ _ hdec
+        exact ⟨this.2.2.2.1, this.2.2.2.2.1⟩
+    · exact ih s1 hr1 s2 ms2 hf2 m hm
+
+example : Reachable (RState.init (List.replicate maxBuf 0)) := .init _ (by simp)
+
 /-- **C17_reported_frames_in_stream.** The reader reports only frames: whenever a reader that started
 fresh reports a message after consuming `pre ++ [b]`, these bytes end with a complete frame
 `<10><02> escaped(body) <10><03>` whose body is consistent (`decodeBody`, see
@@ -176,15 +207,30 @@ example : ∃ s1 ms s' k m,
 
 /-! ## resynchronisation -/
 
-/-- **C17_resync.** From any reachable state without a pending escape (whatever has been collected,
-whatever flags are set) the frame of a valid message is returned, and the reader is idle. -/
-theorem C17_resync (s : RState) (hs : Reachable s) (he : s.esc = false) (c : Cfg) (m : Msg) (hv : Valid m) :
+/-- **C17_resync.** From any reachable state except "inside a message with an escape pending" (whatever
+has been collected, whatever other flags are set) the frame of a valid message is returned, and the
+reader is idle. -/
+theorem C17_resync (s : RState) (hs : Reachable s) (he : s.coming = false ∨ s.esc = false) (c : Cfg) (m : Msg)
+    (hv : Valid m) :
     ∃ s', feed c s (frame (bodyOf m)) = .ok (s', [received m]) ∧ handling s' = false := by
   obtain ⟨s', hf, hidle⟩ := frame_fed c hs.inv he hv
   exact ⟨s', hf, hidle.handling⟩
 
 example : Reachable (RState.init (List.replicate maxBuf 0)) ∧ (RState.init (List.replicate maxBuf 0)).esc = false :=
   ⟨.init _ (by simp), rfl⟩
+
+/-- **C17_resync_from_idle.** When nothing is pending (`Handling()` is false: a fresh reader, or after
+a complete frame, or after garbage that was dropped) the next start sequence starts a message: any
+bytes that contain no `<10><02>` — in particular stray `<10>` bytes directly in front of the frame —
+followed by the frame of a valid message yield exactly that message. -/
+theorem C17_resync_from_idle (s : RState) (hs : Reachable s) (hh : handling s = false) (c : Cfg)
+    (g : List Nat) (hg : noStart g = true) (m : Msg) (hv : Valid m) :
+    ∃ s', feed c s (g ++ frame (bodyOf m)) = .ok (s', [received m]) ∧ handling s' = false := by
+  obtain ⟨s', hf, hidle⟩ := frame_fed_idle c g hs.inv hh hg hv
+  exact ⟨s', hf, hidle.handling⟩
+
+example : handling (RState.init (List.replicate maxBuf 0)) = false ∧ noStart [0x55, 0x10, 0x10, 0x10] = true :=
+  ⟨rfl, rfl⟩
 
 /-- **C17_resync_after_garbage.** From *any* reachable state: after any bytes the last of which is not
 0x10 (garbage, a truncated frame, a complete frame, ...) the frame of a valid message is returned —
@@ -194,7 +240,7 @@ theorem C17_resync_after_garbage (s : RState) (hs : Reachable s) (c : Cfg) (g : 
     ∃ s1 outs s', feed c s g = .ok (s1, outs) ∧
       feed c s (g ++ frame (bodyOf m)) = .ok (s', outs ++ [received m]) ∧ handling s' = false := by
   obtain ⟨s1, outs, hf1, hi1, hesc⟩ := feed_total c g hs.inv
-  obtain ⟨s', hf2, hidle⟩ := frame_fed c hi1 (hesc last hl hne) hv
+  obtain ⟨s', hf2, hidle⟩ := frame_fed c hi1 (Or.inr (hesc last hl hne)) hv
   exact ⟨s1, outs, s', hf1, by simp only [feed_append, hf1, hf2], hidle.handling⟩
 
 example : ([0x10, 0x02, 0x93, 0x55] : List Nat).getLast? = some 0x55 ∧ (0x55 : Nat) ≠ 0x10 := ⟨rfl, by decide⟩
